@@ -105,6 +105,11 @@ func PatchesFromDocument(doc string) ([]Patch, error) {
 	var jsonPatches []string
 
 	for _, key := range sortedKeys(parsed) {
+		if isEmptySection(key, parsed[key]) {
+			// nothing to add: an add patch must not be empty (resolution itself reports such sections after removals)
+			continue
+		}
+
 		jsonBytes, err := json.Marshal(parsed[key])
 		if err != nil {
 			return nil, err
@@ -148,6 +153,22 @@ func PatchesFromDocument(doc string) ([]Patch, error) {
 	}
 
 	return docPatches, nil
+}
+
+// isEmptySection tells whether the member is a key, service or also-known-as section without entries (null or []).
+func isEmptySection(key string, value interface{}) bool {
+	switch key {
+	case document.PublicKeyProperty, document.ServiceProperty, document.AlsoKnownAs:
+		if value == nil {
+			return true
+		}
+
+		arr, ok := value.([]interface{})
+
+		return ok && len(arr) == 0
+	}
+
+	return false
 }
 
 // NewReplacePatch creates new replace patch.
